@@ -923,4 +923,5 @@ func runC18(c *core.Ctx) {
 	c18Text(c)
 	c18HTML(c)
 	c18Filter(c) // c18filter.go: the style-tag filter at token level (T2 `filter`, oracle filter_token_agreement)
+	c18Served(c) // c18_served.go: what webui.MailboxMessage serves
 }
